@@ -266,12 +266,13 @@ func c20SeenByClient(resp []byte) (status int, loc []byte, ok bool) {
 }
 
 type c20Cfg struct {
-	entry   byte // 'D' DoRedirects, 'G' Get, 'P' Post
-	maxR    int
+	entry byte // 'D' DoRedirects, 'G' Get, 'P' Post
+	maxR  int
 	// '0' none, '1' SetBodyString, '2' SetBodyStream of unknown size, '3' PostArgs, '4' SetBodyRaw, '5' SetBody,
 	// '6' AppendBody (twice), '7' BodyWriter, '8' multipart/form-data body parsed into Request.MultipartForm
-	body byte
+	body    byte
 	noNorm  bool
+	reuse   bool
 	method  string
 	url     string
 	headers [][2]string
@@ -284,7 +285,7 @@ func c20Decode(a [][]byte) *c20Cfg {
 		return nil
 	}
 	f := strings.Fields(string(a[0]))
-	if len(f) != 4 || len(f[0]) != 1 || len(f[2]) != 1 {
+	if (len(f) != 4 && len(f) != 5) || len(f[0]) != 1 || len(f[2]) != 1 {
 		return nil
 	}
 	m, err := strconv.Atoi(f[1])
@@ -292,6 +293,12 @@ func c20Decode(a [][]byte) *c20Cfg {
 		return nil
 	}
 	c := &c20Cfg{entry: f[0][0], maxR: m, body: f[2][0], noNorm: f[3] == "1", method: string(a[1]), url: string(a[2])}
+	// optional 5th field "1": the Request object is a REUSED one (it carried a request with a long host, long path
+	// and several headers before and was Reset), so its buffers have spare capacity and are written in place
+	c.reuse = len(f) == 5 && f[4] == "1"
+	if len(f) == 5 && f[4] != "0" && f[4] != "1" {
+		return nil
+	}
 	if !strings.ContainsRune("DGP", rune(c.entry)) || !strings.ContainsRune("012345678", rune(c.body)) || c.method == "" {
 		return nil
 	}
@@ -322,8 +329,21 @@ type c20Stream struct{ r *strings.Reader }
 
 func (s *c20Stream) Read(p []byte) (int, error) { return s.r.Read(p) }
 
+// c20Warm: a Request that already served a request with long host / path / header values
+func c20Warm(req *fasthttp.Request) {
+	req.SetRequestURI("http://a-rather-long-host-name-used-before.some-other-department.example.org:8080/with/a/long/path?and=query#frag")
+	req.Header.Set("Authorization", "previous-owner-authorization-value")
+	req.Header.SetCookie("previous", "owner")
+	req.SetBodyString("previous body")
+	_ = req.URI().Host()
+	req.Reset()
+}
+
 func c20BuildRequest(c *c20Cfg) *fasthttp.Request {
 	req := &fasthttp.Request{}
+	if c.reuse {
+		c20Warm(req)
+	}
 	if c.noNorm {
 		req.Header.DisableNormalizing()
 	}
@@ -412,10 +432,20 @@ func c20Chain(a [][]byte) *Case {
 	case 'G':
 		url0 = c.url
 		maxR = fasthttp.VerifDefaultMaxRedirectsCount
+		if c.reuse { // Get/Post take their Request from the pool: put a used one there
+			w := fasthttp.AcquireRequest()
+			c20Warm(w)
+			fasthttp.ReleaseRequest(w)
+		}
 		status, _, err = cl.Get(nil, c.url)
 	case 'P':
 		url0 = c.url
 		maxR = fasthttp.VerifDefaultMaxRedirectsCount
+		if c.reuse {
+			w := fasthttp.AcquireRequest()
+			c20Warm(w)
+			fasthttp.ReleaseRequest(w)
+		}
 		var args fasthttp.Args
 		args.Set("k", "v")
 		status, _, err = cl.Post(nil, c.url, &args)
@@ -839,7 +869,29 @@ func c20Gen(r *Rand, tier string, emit func(string, ...[]byte)) {
 		if r.Chance(30) {
 			hs.WriteString("X-Other: keep\n")
 		}
-		args := [][]byte{B(fmt.Sprintf("%s %d %c %d", entry, maxR, body, map[bool]int{false: 0, true: 1}[noNorm])), B(method), B(url), B(hs.String())}
+		reuse := 0
+		if r.Chance(40) {
+			reuse = 1
+		}
+		args := [][]byte{B(fmt.Sprintf("%s %d %c %d %d", entry, maxR, body, map[bool]int{false: 0, true: 1}[noNorm], reuse)), B(method), B(url), B(hs.String())}
+		// out through the initial host's own domain: trusted subdomains whose leading labels spell a foreign host
+		// (of any length, often exactly as long as the initial host), then that foreign host itself
+		if hl := strings.ToLower(h0); r.Chance(12) && hl != "" && !strings.ContainsAny(hl, ":[]%,@ ") {
+			foreign := r.Pick([]string{"evil.com", "evil.org", "x.net", strings.Repeat("x", max(len(hl)-4, 1)) + ".net", "e" + hl[1:]})
+			if foreign == hl {
+				foreign = "z" + hl[1:]
+			}
+			for k := 1 + r.Intn(2); k > 0; k-- {
+				args = append(args, B(r.Pick([]string{"302", "307", "301", "308"})), B("http://"+foreign+"."+hl+r.Pick([]string{"/", "/a", ":8080/b"})))
+			}
+			args = append(args, B(r.Pick([]string{"302", "307", "303"})), B(r.Pick([]string{"http://", "//", "https://"})+foreign+"/leak"))
+			if r.Bool() {
+				args = append(args, B("302"), B("http://"+hl+"/back"))
+			}
+			args = append(args, B("200"), nil)
+			emit("chain", args...)
+			continue
+		}
 		nh := 1 + r.Intn(5)
 		if r.Chance(6) {
 			nh = 2 + r.Intn(20)
